@@ -19,6 +19,35 @@ thread_local! {
 	static LAST_PANIC: std::cell::RefCell<Option<String>> = std::cell::RefCell::new(None);
 }
 
+/// A logger that discards everything. With the maximum level at `Trace` every `info!`/`debug!`/`trace!`
+/// call site in peppi evaluates its argument expressions (a host application with logging switched on);
+/// with `Off` none does. The checks alternate between the two (see `run_dna` / `run_enum`).
+struct NullLogger;
+impl log::Log for NullLogger {
+	fn enabled(&self, _: &log::Metadata) -> bool {
+		true
+	}
+	fn log(&self, r: &log::Record) {
+		// format the message (argument expressions are evaluated by the macro; formatting runs Display impls)
+		use std::io::Write;
+		let _ = write!(std::io::sink(), "{}", r.args());
+	}
+	fn flush(&self) {}
+}
+static NULL_LOGGER: NullLogger = NullLogger;
+pub static LOGGED_PHASES: AtomicU64 = AtomicU64::new(0);
+
+pub fn set_logging(on: bool) {
+	static INIT: std::sync::Once = std::sync::Once::new();
+	INIT.call_once(|| {
+		let _ = log::set_logger(&NULL_LOGGER);
+	});
+	log::set_max_level(if on { log::LevelFilter::Trace } else { log::LevelFilter::Off });
+	if on {
+		LOGGED_PHASES.fetch_add(1, Ordering::Relaxed);
+	}
+}
+
 pub fn install_panic_hook() {
 	std::panic::set_hook(Box::new(|info| {
 		let msg = if let Some(s) = info.payload().downcast_ref::<&str>() {
@@ -162,6 +191,18 @@ fn sched_reader(bytes: &[u8], s: crate::readers::Schedule) -> crate::readers::Sc
 	let mut r = crate::readers::SchedReader::new(bytes, s);
 	r.budget = usize::MAX;
 	r
+}
+
+/// Runs `f` with a private, empty scratch directory (for `Opts::debug`, which dumps event payloads into
+/// a directory) and removes it afterwards.
+pub fn with_debug_dir<T>(f: impl FnOnce(&std::path::Path) -> T) -> T {
+	static N: AtomicU64 = AtomicU64::new(0);
+	let base = std::env::var("PV_ROOT").map(std::path::PathBuf::from).unwrap_or_else(|_| std::path::PathBuf::from("/verif"));
+	let dir = base.join("work").join(format!("dbg-{}-{}", std::process::id(), N.fetch_add(1, Ordering::Relaxed)));
+	let _ = std::fs::create_dir_all(&dir);
+	let out = f(&dir);
+	let _ = std::fs::remove_dir_all(&dir);
+	out
 }
 
 pub fn slp_read_opts(bytes: &[u8], o: Option<&peppi::io::slippi::de::Opts>) -> Out<Game> {
@@ -524,6 +565,7 @@ impl Ctx {
 				cov.insert("call_histories".into(), json!({"cases_preceded_by_a_different_configuration_workload_incl_failing_calls": w, "cases_preceded_by_a_near_identical_sibling_incl_failing_calls": sb}));
 			}
 		}
+		cov.insert("phases_run_with_logging_enabled".into(), json!(LOGGED_PHASES.load(Ordering::Relaxed)));
 		let tc = transport_counts();
 		if !tc.is_empty() {
 			cov.insert("transports".into(), json!(tc));
@@ -636,12 +678,30 @@ pub fn run_dna<F>(ctx: &Ctx, kind: &str, cases: usize, dna_max: usize, f: F) -> 
 where
 	F: Fn(&[u8], bool) -> Result<(), Fail> + Sync,
 {
+	// three quarters of the cases with logging off (the default of a host application), one quarter with
+	// every log call site live (see `set_logging`); the phases run one after the other because the level is global
+	let on = cases / 4;
+	set_logging(false);
+	let r = run_dna_phase(ctx, kind, cases - on, dna_max, &f, false);
+	if r.is_some() || on == 0 {
+		return r;
+	}
+	set_logging(true);
+	let r = run_dna_phase(ctx, kind, on, dna_max, &f, true);
+	set_logging(false);
+	r
+}
+
+fn run_dna_phase<F>(ctx: &Ctx, kind: &str, cases: usize, dna_max: usize, f: &F, logging: bool) -> Option<String>
+where
+	F: Fn(&[u8], bool) -> Result<(), Fail> + Sync,
+{
 	use proptest::prelude::*;
 	if ctx.stop.load(Ordering::Relaxed) {
 		return None;
 	}
 	let per = (cases + WORKERS - 1) / WORKERS;
-	let label_hash = xxhash_rust::xxh3::xxh3_64(format!("{}/{}", ctx.prop, kind).as_bytes());
+	let label_hash = xxhash_rust::xxh3::xxh3_64((if logging { format!("{}/{}/logging", ctx.prop, kind) } else { format!("{}/{}", ctx.prop, kind) }).as_bytes());
 	// (dna, history, fail)
 	let found: Mutex<Option<(Vec<u8>, Vec<Vec<u8>>, Fail)>> = Mutex::new(None);
 	let inner = f;
@@ -726,7 +786,10 @@ where
 	});
 	let g = found.into_inner().unwrap();
 	g.map(|(dna, history, fail)| {
-		let params = if history.is_empty() { json!({ "dna": hex(&dna) }) } else { json!({ "dna": hex(&dna), "history": history.iter().map(|h| hex(h)).collect::<Vec<_>>() }) };
+		let mut params = if history.is_empty() { json!({ "dna": hex(&dna) }) } else { json!({ "dna": hex(&dna), "history": history.iter().map(|h| hex(h)).collect::<Vec<_>>() }) };
+		if logging {
+			params["logging"] = json!(true);
+		}
 		ctx.report(kind, &params, &fail)
 	})
 }
@@ -736,9 +799,28 @@ where
 	F: Fn(usize) -> Result<(), Fail> + Sync,
 	P: Fn(usize) -> Value,
 {
+	// indices 3, 7, 11, ... run with every log call site live, the others with logging off (two passes: the level is global)
+	set_logging(false);
+	let r = run_enum_pass(ctx, kind, n, &params, &f, false);
+	if r.is_some() || n < 4 {
+		return r;
+	}
+	set_logging(true);
+	let r = run_enum_pass(ctx, kind, n, &params, &f, true);
+	set_logging(false);
+	r
+}
+
+fn run_enum_pass<F, P>(ctx: &Ctx, kind: &str, n: usize, params: &P, f: &F, logging: bool) -> Option<String>
+where
+	F: Fn(usize) -> Result<(), Fail> + Sync,
+	P: Fn(usize) -> Value,
+{
 	if ctx.stop.load(Ordering::Relaxed) || std::env::var("PV_ONLY_DNA").is_ok() {
 		return None; // PV_ONLY_DNA: debugging aid, runs only the proptest-driven parts
 	}
+	// this pass owns the indices with (i % 4 == 3) == logging (when n < 4 there is only the logging-off pass, which owns all)
+	let mine = |i: usize| n < 4 || (i % 4 == 3) == logging;
 	let next = std::sync::atomic::AtomicUsize::new(0);
 	let found: Mutex<Option<(usize, Option<usize>, Fail)>> = Mutex::new(None);
 	let run = |i: usize| {
@@ -753,6 +835,9 @@ where
 					let i = next.fetch_add(1, Ordering::Relaxed);
 					if i >= n || found.lock().unwrap().is_some() {
 						break;
+					}
+					if !mine(i) {
+						continue;
 					}
 					if let Err(fail) = run(i) {
 						if ctx.is_known(&fail) {
@@ -774,6 +859,11 @@ where
 		ctx.stop.store(true, Ordering::Relaxed);
 		// reproducible from a fresh thread? otherwise record the case that ran before it on its thread
 		let mut p = params(i);
+		if logging {
+			if let Some(obj) = p.as_object_mut() {
+				obj.insert("logging".into(), json!(true));
+			}
+		}
 		let mut fail = fail;
 		match on_fresh_thread(|| run(i).err()) {
 			Some(fl) => fail = fl,
